@@ -56,6 +56,9 @@ def first_para(text, header_words):
 
 
 def main():
+    if not os.path.isdir(SRCS[0]):
+        print("historical tool: the run logs of rounds 1-3 under /tmp are gone; use seed_meta.py / fill_design.py")
+        return
     results = parse_results(ORDER)
     rows = []
     os.makedirs(DST, exist_ok=True)
